@@ -1,17 +1,117 @@
 mod golden;
+mod idcorr;
 mod tables;
 mod util;
+
+use std::collections::BTreeMap;
+use std::fs;
+use std::io::Write;
+
+/// write correspondence shards + meta for an ID-layer property
+fn write_cases(prop: &str, cases: &[idcorr::Case], outdir: &str, module: &str) {
+    fs::create_dir_all(outdir).unwrap();
+    // remove stale shards of this property
+    for e in fs::read_dir(outdir).unwrap().flatten() {
+        let n = e.file_name().to_string_lossy().to_string();
+        if n.starts_with(&format!("cases_{}_", prop)) {
+            let _ = fs::remove_file(e.path());
+        }
+    }
+    let budget = 250_000usize;
+    let mut shards: Vec<(String, usize, usize)> = Vec::new();
+    let mut cur: Vec<String> = Vec::new();
+    let mut cur_bytes = 0usize;
+    let mut first = 0usize;
+    let flush = |cur: &mut Vec<String>, first: usize, shards: &mut Vec<(String, usize, usize)>| {
+        if cur.is_empty() {
+            return;
+        }
+        let name = format!("cases_{}_{}", prop, shards.len());
+        let mut f = fs::File::create(format!("{}/{}.v", outdir, name)).unwrap();
+        writeln!(f, "From Coq Require Import ZArith List Uint63.\nImport ListNotations.\nOpen Scope Z_scope.\nFrom A5 Require Import {}.\nDefinition cases : list case := [", module).unwrap();
+        writeln!(f, "{}", cur.join(";\n")).unwrap();
+        writeln!(f, "].\nEval vm_compute in (mismatches cases).").unwrap();
+        shards.push((name, first, cur.len()));
+        cur.clear();
+    };
+    for (k, c) in cases.iter().enumerate() {
+        let t = c.coq();
+        if cur_bytes + t.len() > budget && !cur.is_empty() {
+            flush(&mut cur, first, &mut shards);
+            first = k;
+            cur_bytes = 0;
+        }
+        cur_bytes += t.len();
+        cur.push(t);
+    }
+    flush(&mut cur, first, &mut shards);
+
+    let mut kinds: BTreeMap<String, usize> = BTreeMap::new();
+    let mut distinct = std::collections::HashSet::new();
+    for c in cases {
+        *kinds.entry(format!("{}:{}", c.kind(), c.outcome())).or_insert(0) += 1;
+        distinct.insert(c.coq());
+    }
+    let mut descs = fs::File::create(format!("{}/cases_{}.descs", outdir, prop)).unwrap();
+    for c in cases {
+        let d = c.desc();
+        let d = if d.len() > 4000 { format!("{}…(truncated)", &d[..4000]) } else { d };
+        writeln!(descs, "{}", d.replace('\n', " ")).unwrap();
+    }
+    let mut meta = String::from("{");
+    meta.push_str(&format!("\"prop\":\"{}\",\"cases\":{},\"distinct\":{},", prop, cases.len(), distinct.len()));
+    meta.push_str("\"kinds\":{");
+    meta.push_str(&kinds.iter().map(|(k, v)| format!("\"{}\":{}", k, v)).collect::<Vec<_>>().join(","));
+    meta.push_str("},\"shards\":[");
+    meta.push_str(
+        &shards
+            .iter()
+            .map(|(n, f, c)| format!("{{\"name\":\"{}\",\"first\":{},\"count\":{}}}", n, f, c))
+            .collect::<Vec<_>>()
+            .join(","),
+    );
+    meta.push_str("],\"samples\":[");
+    let step = (cases.len() / 6).max(1);
+    meta.push_str(
+        &cases
+            .iter()
+            .step_by(step)
+            .take(8)
+            .map(|c| {
+                let d = c.desc();
+                let d: String = d.chars().take(300).collect();
+                format!("\"{}\"", util::json_escape(&d))
+            })
+            .collect::<Vec<_>>()
+            .join(","),
+    );
+    meta.push_str("]}");
+    fs::write(format!("{}/cases_{}.json", outdir, prop), meta).unwrap();
+}
 
 fn main() {
     std::panic::set_hook(Box::new(|_| {}));
     let args: Vec<String> = std::env::args().collect();
     if args.len() < 2 {
-        eprintln!("usage: a5h <tables|...>");
+        eprintln!("usage: a5h <tables|golden-generate|corr PROP TIER SEED OUTDIR|search PROP TIER SEED>");
         std::process::exit(2);
     }
     match args[1].as_str() {
         "tables" => print!("{}", tables::dump()),
         "golden-generate" => print!("{}", golden::generate(20261001)),
+        "corr" => {
+            let prop = &args[2];
+            let thorough = args[3] == "thorough";
+            let seed: u64 = args[4].parse().unwrap_or(0);
+            let outdir = &args[5];
+            let mut rng = util::Rng::new(seed ^ 0xC0_55);
+            if let Some(cases) = idcorr::cases_for(prop, &mut rng, thorough) {
+                write_cases(prop, &cases, outdir, "Corr.IdCases");
+            } else {
+                eprintln!("no correspondence generator for {}", prop);
+                std::process::exit(2);
+            }
+        }
         other => {
             eprintln!("unknown subcommand {}", other);
             std::process::exit(2);
